@@ -10,6 +10,7 @@ import (
 
 	"github.com/gofiber/fiber/v3"
 	"github.com/gofiber/fiber/v3/middleware/encryptcookie"
+	recoverer "github.com/gofiber/fiber/v3/middleware/recover"
 	"github.com/valyala/fasthttp"
 	"pgregory.net/rapid"
 
@@ -53,6 +54,7 @@ type Case struct {
 	Cookies  []Cookie
 	Except   []string
 	SetErr   int  `json:",omitempty"` // the handler that sets the cookies then fails with this status (the error reply carries the cookies too)
+	SetPanic bool `json:",omitempty"` // the handler that sets the cookies then panics; a recover middleware in front of encryptcookie turns that into a 500 reply (which carries the cookies too)
 	Mutate   bool // run the complete single-character substitution / truncation / extension set on every ciphertext
 }
 
@@ -77,10 +79,16 @@ func check(c Case) vk.Verdict {
 	key := base64.StdEncoding.EncodeToString(c.Key)
 	app := fiber.New()
 	seen := map[string]string{}
+	if c.SetPanic {
+		app.Use(recoverer.New())
+	}
 	app.Use(encryptcookie.New(encryptcookie.Config{Key: key, Except: c.Except}))
 	app.Get("/set", func(ctx fiber.Ctx) error {
 		for _, ck := range c.Cookies {
 			ctx.Cookie(ck.fiber())
+		}
+		if c.SetPanic {
+			panic("handler failed after setting its cookies")
 		}
 		if c.SetErr != 0 {
 			return fiber.NewError(c.SetErr, "denied")
@@ -98,7 +106,11 @@ func check(c Case) vk.Verdict {
 	})
 	issue := func() (map[string]string, string) {
 		r := vk.Do(app, "GET", "/set")
-		if want := max(c.SetErr, 200); r.Response.StatusCode() != want {
+		want := max(c.SetErr, 200)
+		if c.SetPanic {
+			want = 500
+		}
+		if r.Response.StatusCode() != want {
 			return nil, fmt.Sprintf("/set answered %d, want %d", r.Response.StatusCode(), want)
 		}
 		out := map[string]string{}
@@ -247,6 +259,9 @@ func check(c Case) vk.Verdict {
 	if c.SetErr != 0 {
 		v.Classes = append(v.Classes, "set-handler-fails")
 	}
+	if c.SetPanic {
+		v.Classes = append(v.Classes, "set-handler-panics-behind-recover")
+	}
 	mutations.add(tagRejected + sameAccepted + b64Rejected)
 	return v
 }
@@ -288,6 +303,7 @@ func genCase(t *rapid.T) Case {
 	}
 	c.Except = rapid.SliceOfNDistinct(rapid.SampledFrom(names), 0, 2, rapid.ID[string]).Draw(t, "except")
 	c.SetErr = rapid.SampledFrom([]int{0, 0, 0, 403, 500}).Draw(t, "seterr")
+	c.SetPanic = rapid.IntRange(0, 5).Draw(t, "setpanic") == 0
 	c.Mutate = true
 	for _, ck := range c.Cookies {
 		if len(ck.Value) > 300 {
